@@ -97,6 +97,37 @@ def run(ctx: core.Ctx):
         if [float(np.float32(v)) for v in core.parse_arr(a.split()[1], int)] != [float(v) for v in out]:
             ctx.disagree("F", "rolling_sum", dict(xx=x.tolist(), window=w, nodata=nd, dtype=dt), a, out.tolist())
 
+    # values beyond the range in which float32 adds integers exactly: recorded finding (the output type of the kernel is float32);
+    # what is returned must still be the float32 accumulation of the valid cells in window order - anything else is a violation
+    for _ in range(ctx.budget(30, 300)):
+        n = rng.choice([3, 9, 36, 2200])
+        dt = rng.choice(["int64", "int32", "int16", "float32"])
+        big = {"int16": 30000, "int32": 2 ** 30, "int64": 2 ** 40, "float32": 2 ** 26}[dt]
+        nd = -9999
+        x = np.array([nd if rng.random() < 0.1 else rng.choice([big, big - 1, 1, 7, rng.randint(0, 3000)]) for _ in range(n)], dtype=np.int64)
+        w = rng.choice([1, 2, n // 2, n]) if n < 2000 else rng.choice([1500, 2000])
+        w = max(1, w)
+        out = rolling_sum(x.astype(dt), float(w), float(nd))
+        ctx.case(("rollbig", tuple(x[:40]), w, dt, n), sample=dict(kernel="rolling_sum", dtype=dt, window=w, max_value=int(big)))
+        ctx.count("rolling_sum beyond 2^24")
+        for ii in range(w - 1, n):
+            win = x[ii - w + 1: ii + 1]
+            valid = win[win != nd]
+            exact = int(valid.sum())
+            acc = np.float32(0)
+            for v in valid:
+                acc = np.float32(acc + np.float32(v)) if dt == "float32" else np.float32(np.float64(acc) + np.float64(v))
+            want = np.float32(nd) if len(valid) == 0 else acc
+            if out[ii] != want:
+                ctx.fail("rolling_sum", dict(xx=x[max(0, ii - w + 1): ii + 1][:30].tolist(), window=w, dtype=dt, position=ii), float(out[ii]), float(want),
+                         note="the float32 accumulation of the window's valid cells (or nodata)")
+                break
+            if len(valid) and float(out[ii]) != float(exact):
+                bound_ok = w * int(np.abs(valid).max()) <= 2 ** 24
+                ctx.fail("rolling_sum", dict(window=w, dtype=dt, position=ii, exact_sum=exact), float(out[ii]), exact,
+                         signature=None if bound_ok else "rolling_sum:float32-exactness", note="exact sum of the window's cells")
+                break
+
     # ---- mean_grp
     lines, refs = [], []
     Lg = 4 if ctx.quick else 5
